@@ -34,7 +34,7 @@ claimed = {
          "Subset as stated. " + TRUST,
          "bounded symbolic execution with schedule forking + vector-clock race detection"),
  "C20": std("Rate meters: a window samples iff a full window passed (integer/time logic by bit-vector queries), slower windows only after faster ones, rate bit-exactly equal to the IEEE evaluation of growth*1000/window_ms and proved finite and non-negative for every counter value (stall, backwards, wrap) in the FP theory; average and kbit/s scaling likewise; reading before Start panics."),
- "C07": ("For every byte string up to the stated length given to each claimed decoder, every panic site (index, slice bounds, nil dereference, make size, division, type assertion) is shown infeasible by the solver on every path, and every path terminates within its step budget (a budget overrun is replayed natively under a watchdog and reported as a stall only if the real code hangs); enum helpers are total over their whole underlying type. Claimed for the byte-level decoders only: JWS/JWE/JWK/OCSP parsing needs encoding/json, encoding/asn1, reflection and math/big, which the engine cannot encode. The linear-time clause is checked for AMF0 only (nested and wide containers at three sizes under the cost model instructions interpreted + elements copied); for the other decoders only termination within the step budget is claimed.",
+ "C07": ("For every byte string up to the stated length given to each claimed decoder, every panic site (index, slice bounds, nil dereference, make size, division, type assertion) is shown infeasible by the solver on every path, and every path terminates within its step budget (a budget overrun is replayed natively under a watchdog and reported as a stall only if the real code hangs); enum helpers are total over their whole underlying type. Claimed for the byte-level decoders only: JWS/JWE/JWK/OCSP parsing needs encoding/json, encoding/asn1, reflection and math/big, which the engine cannot encode. The linear-time clause is checked in a reduced form: for each claimed decoder family (AMF0, RTMP chunk reader, FLV, ADTS, AVC samples, WebSocket reader, JSON+ reader, key wrap) well-formed inputs of a few adversarial shapes at three sizes n, 2n, 4n must satisfy cost(4n)-cost(2n) <= 2.5 (cost(2n)-cost(n)) under the cost model instructions interpreted + elements copied; arbitrary inputs are only shown to terminate within the step budget.",
          "Subset and bounds in evidence.coverage.bounds and assumptions. " + TRUST,
          "bounded symbolic execution of go/ssa + SMT: panic-site infeasibility queries over arbitrary input bytes"),
  "C08": ("Fault enumeration decided per path by the solver: every cut offset of generated RTMP sessions and FLV files and every failing write call is a forked fault position; on each, the operation returns a non-nil error whose errors.Cause is exactly the transport's error, the items returned before are exactly those completely transferred (contents symbolic), and nothing incomplete is returned with a nil error; the errors package keeps cause and message chain for every nesting of its constructors.",
